@@ -366,6 +366,30 @@ func meshScenarios(c *Ctx, im *Impl) {
 				im.Violate(fmt.Sprintf("node %s lists %v, the advertised listeners open on the mesh are %v", id, got, want), "mesh-ads-not-converged", rec)
 			}
 		}
+		// the same knowledge through the query interface: GetServiceInfo answers exactly for the listed services
+		for _, id := range names {
+			nd := m.Nodes[id]
+			for _, owner := range names {
+				for k := 0; k < nopen+1; k++ {
+					svc := fmt.Sprintf("sv%d", k)
+					info, found := nd.GetServiceInfo(owner, svc)
+					wantTag, wanted := "", false
+					for w := range want {
+						parts := strings.SplitN(w, "/", 3)
+						if parts[0] == owner && parts[1] == svc {
+							wantTag, wanted = parts[2], true
+						}
+					}
+					switch {
+					case found != wanted:
+						im.Violate(fmt.Sprintf("node %s: GetServiceInfo(%s, %s) found=%v, but the listener is open=%v", id, owner, svc, found, wanted), "service-info-wrong", rec)
+					case found && (info.NodeID != owner || info.Service != svc || info.Tags["k"] != wantTag):
+						im.Violate(fmt.Sprintf("node %s: GetServiceInfo(%s, %s) returns %s/%s tags %v, want tag %s", id, owner, svc, info.NodeID, info.Service, info.Tags, wantTag), "service-info-wrong", rec)
+					}
+				}
+			}
+		}
+		im.Hist("mesh:get-service-info")
 		// a node that stops WITHOUT withdrawing: the others must stop listing its services
 		// (only "live nodes it can reach" are to be listed)
 		if t == 0 || r.Chance(30) {
